@@ -65,6 +65,7 @@ type c32Obs struct {
 	Resolves  bool  // join/notify: the address resolves
 	DurMs     int64 // reap / livereap: silence given to the model
 	Lead      string // id of the node serving requests after the event
+	LeadEv    string // lead: the node that won the election the transfer started (normally the one named)
 }
 
 // ---------------------------------------------------------------- world
@@ -529,18 +530,25 @@ func c32Exec(t *testing.T, h c32Hist, gen c32Gen) (r c32Run, done c32Hist) {
 					return
 				}
 			} else if completed {
-				k := -1
-				fmt.Sscanf(ev.ID, "n%d", &k)
-				if k < 0 || k >= len(w.nodes) {
-					r.inconcl = "leadership given to an unknown node " + ev.ID
+				// raft hands leadership to the named voter, but the election it triggers may be won by another voter:
+				// whoever leads now serves the next requests (the model is told who that is)
+				old, k := w.lead, -1
+				dl0 := time.Now().Add(10 * time.Second)
+				for k < 0 && time.Now().Before(dl0) {
+					for j, n := range w.nodes {
+						if j != old && n.IsLeader() {
+							k = j
+						}
+					}
+					time.Sleep(20 * time.Millisecond)
+				}
+				if k < 0 {
+					r.inconcl = "no other node became leader after the transfer to " + ev.ID
 					return
 				}
 				w.lead = k
+				o.LeadEv = w.curID()
 				leadTerm = 0
-				if !w.waitLeader(10 * time.Second) {
-					r.inconcl = "node " + ev.ID + " did not become leader after the transfer"
-					return
-				}
 				// the new leader's configuration must be current before the next request is judged against it
 				dl := time.Now().Add(5 * time.Second)
 				for c32CfgStr(pre) != func() string { c, _ := w.cfgOf(w.cur()); return c32CfgStr(c) }() {
@@ -666,6 +674,9 @@ func c32CoqEv(ev c32Ev, o c32Obs) string {
 	case "remove":
 		return "ERemove " + coqStr(ev.ID)
 	case "lead":
+		if o.LeadEv != "" {
+			return "ELead " + coqStr(o.LeadEv)
+		}
 		return "ELead " + coqStr(ev.ID)
 	default: // reap, livereap
 		return fmt.Sprintf("EReap %s %s", coqStr(ev.ID), coqN(uint64(o.DurMs)))
@@ -930,7 +941,7 @@ func c32LeadHist(rng *rand.Rand) (c32Hist, func() c32Gen) {
 					continue
 				}
 				others = append(others, id)
-				if s := c32Find(cfg, id); s != nil && s.Voter && (s.Addr == "a"+id[1:] || s.Addr == "b"+id[1:]) {
+				if s := c32Find(cfg, id); s != nil && s.Voter && s.Addr == "a"+id[1:] { // at its real address: a transfer to a node configured at its alias often elects nobody in time
 					voters = append(voters, id)
 				}
 			}
